@@ -6,6 +6,12 @@ Exit codes: 0 held on everything explored; 1 reproduced violation (VIOLATION lin
 """
 from __future__ import annotations
 
+import sys as _sys
+try:
+    _sys.set_int_max_str_digits(0)
+except AttributeError:
+    pass
+
 import fnmatch
 import hashlib
 import importlib
